@@ -3,7 +3,7 @@
 set -e
 cd "$(dirname "$0")"
 export PYTHONPATH=/verif PYTHONHASHSEED=0 PYTHONWARNINGS=ignore
-python3 -m harness.gen_all            # Generated/*.v from /repo's current tree
+/venv/bin/python -m harness.gen_all            # Generated/*.v from /repo's current tree
 ( cd coq
   { echo "-Q theories Coba"; find theories -name '*.v' | LC_ALL=C sort; } > _CoqProject
   coq_makefile -f _CoqProject -o Makefile > /dev/null
